@@ -321,7 +321,7 @@ def main():
         for w in range(nw):
             out = os.path.join(work, "j%d-w%d.json" % (ji, w))
             cmd = [exe, "--campaign", "--prop", prop, "--seed", str(seed + (7919 if j.get("rest_of_configurations") else 0)), "--cases", str(j["cases"]), "--worker", str(w), "--nworkers", str(nw),
-                   "--out", out, "--replay-dir", newrep, "--variant", j.get("variant", "prod"), "--time-s", str(j.get("time_s", 600)),
+                   "--out", out, "--replay-dir", newrep, "--variant", j.get("variant", "prod"), "--time-s", str(int(j.get("time_s", 600) * float(os.environ.get("VERIF_TIME_SCALE", "1")))),
                    "--samples", "2" if w == 0 else "0"]
             if j.get("tag"):
                 cmd += ["--tag", j["tag"]]
